@@ -31,7 +31,7 @@ RULE = ("cases = (abstract client state: each of 3 types none/subscribed/paused,
         "distinct = distinct (state, op, args)")
 ASSUMPTIONS = ["delivered set is decided from raw bytes on client.sock after fences (ACKs) on both connections",
                "contexts are exited normally; a context entered with ALL in its list is outside the statement"]
-REQUIRE = {"probes_compared": 500, "context_restores_checked": 100, "suball_refusals_checked": 30, "reconnects": 20}
+REQUIRE = {"cases_with_largest_message_id": 5, "probes_compared": 500, "context_restores_checked": 100, "suball_refusals_checked": 30, "reconnects": 20}
 CASE_TIMEOUT = 200
 
 SHAPES3 = [[0], [1], [2], [0, 1], [1, 2], [0, 2], [0, 1, 2], [0, 0], [1, 0, 1], [2, 1, 0], []]
@@ -205,6 +205,10 @@ def run_case(case, tier):
     res = {"violations": [], "counters": {}, "sets": {}, "sig": None, "nontrivial": False}
     o = Obs(res)
     univ = U if case["n_types"] == 3 else U4
+    if case.get("n", 0) % 4 == 2:
+        # the universe at the upper edge of the id range: 10000 is the largest message id a definition may have
+        univ = [9999, 10000, 9998] + univ[3:]
+        res["counters"]["cases_with_largest_message_id"] = 1
     try:
         # every third case the client is a logger module: subscriptions work the same for it
         S = ApiSession(rig, logger=bool(case.get("n", 0) % 3 == 1))
